@@ -203,7 +203,8 @@ def gen_instance(rng, iid, family='random', nmax_geos=6):
                           rng.choices(['low_half', 'middle', 'high', 'below_all', 'above_all', 'wide'],
                                       weights=[0.4, 0.15, 0.1, 0.05, 0.05, 0.25])[0]),
           'ids_kind': rng.choice(['int', 'str', 'str2']),
-          'extra_elig_row': rng.choices([False, 'optional', 'ct', 'c', 't'], weights=[0.8, 0.12, 0.04, 0.02, 0.02])[0],
+          'extra_elig_row': rng.choices([False, 'optional', 'ct', 'c', 't', 'nan_ct', 'nan_optional'],
+                                        weights=[0.78, 0.10, 0.03, 0.02, 0.02, 0.03, 0.02])[0],
           'float_ints': rng.random() < 0.15,
           'shuffle_seed': rng.randint(0, 10 ** 9)}
   return inst
@@ -295,6 +296,12 @@ def build_objects(inst, variant=None):
       rows.append({'date': day0 + pd.Timedelta(days=d), 'geo': ids[g - 1], 'response': (float(v) + delta) * scale})
       continue
     rows.append({'date': day0 + pd.Timedelta(days=d), 'geo': ids[g - 1], 'response': float(v) * scale})
+  if not inst['default_elig'] and str(inst.get('extra_elig_row', '')).startswith('nan_'):
+    # a geo that has rows in the frame but no response at all (all NaN): the canonical table has no row for it, so it
+    # is not "in the data"
+    ghost = 'not_in_data' if isinstance(ids[0], str) else 9999
+    for d in range(inst['n_dates']):
+      rows.append({'date': day0 + pd.Timedelta(days=d), 'geo': ghost, 'response': float('nan')})
   r = random.Random(inst['shuffle_seed'] + variant.get('shuffle', 0))
   r.shuffle(rows)
   df = pd.DataFrame(rows)
@@ -314,7 +321,8 @@ def build_objects(inst, variant=None):
     if inst['extra_elig_row']:
       # a row for a geo that is not in the data: optional rows are dropped by the data object; a row that forbids
       # exclusion must make the data object reject the table (then there is no search to judge)
-      trip = {'optional': (1, 0, 1), True: (1, 0, 1), 'ct': (1, 1, 0), 'c': (1, 0, 0), 't': (0, 1, 0)}[inst['extra_elig_row']]
+      trip = {'optional': (1, 0, 1), True: (1, 0, 1), 'ct': (1, 1, 0), 'c': (1, 0, 0), 't': (0, 1, 0),
+              'nan_ct': (1, 1, 0), 'nan_optional': (1, 1, 1)}[inst['extra_elig_row']]
       erows.append({'geo': 'not_in_data' if isinstance(ids[0], str) else 9999, 'control': trip[0], 'treatment': trip[1],
                     'exclude': trip[2]})
     r.shuffle(erows)
@@ -676,7 +684,7 @@ def to_tla(inst):
   return {'id': inst['id'], 'n': n, 'elig': inst['elig'], 'w': tab['weights'], 'tr': list(inst['tr']),
           'cr': list(inst['cr']), 'gtol': list(inst['gtol']), 'vtol': list(inst['vtol']), 'share': list(inst['share']),
           'hasBudget': inst['budget'] is not None, 'k': inst['par']['n_designs'], 'nmax': inst['nmax'],
-          'missingRequired': (not inst['default_elig']) and inst.get('extra_elig_row') in ('ct', 'c', 't'),
+          'missingRequired': (not inst['default_elig']) and inst.get('extra_elig_row') in ('ct', 'c', 't', 'nan_ct'),
           'overBudget': tab['over_budget'], 'impactOrder': tab['impact_order'], 'rank': rank, 'budgetOK': bok,
           'opt': opt, 'beatsZero': beats, 'exh': res(inst['exh']), 'greedy': res(inst['greedy']),
           'queries': inst.get('queries') or {'recorded': False, 'overBudget': [], 'tooLarge': [], 'mustInclude': [],
@@ -1175,7 +1183,7 @@ def to_tla_lite(inst):
   return {'id': inst['id'], 'n': inst['n'], 'elig': inst['elig'], 'w': tab['weights'], 'tr': list(inst['tr']),
           'cr': list(inst['cr']), 'gtol': list(inst['gtol']), 'vtol': list(inst['vtol']), 'share': list(inst['share']),
           'hasBudget': inst['budget'] is not None, 'k': inst['par']['n_designs'], 'nmax': inst['nmax'],
-          'missingRequired': (not inst['default_elig']) and inst.get('extra_elig_row') in ('ct', 'c', 't'),
+          'missingRequired': (not inst['default_elig']) and inst.get('extra_elig_row') in ('ct', 'c', 't', 'nan_ct'),
           'overBudget': tab['over_budget'], 'impactOrder': tab['impact_order'],
           'greedy': {'status': r['status'], 'designs': ds}}
 
